@@ -175,6 +175,7 @@ def life3(r, facts):
     ve = ves[0]
     run_edge = ve['edge']
     r.inst('Running edge bb%d->bb%d' % run_edge, f.where(f.term_loc(run_edge[0])))
+    r.require(not ve['shared_with'], 'State::drop/running-test-too-wide', 'the deferred-drop path is also taken for status %s: such a state is cancelled and marked Dropped although no completion will ever free it' % ve['shared_with'], f.where(f.term_loc(run_edge[0])))
     direct = [loc for loc, t in f.calls_to(DROP_STATE)]
     dropped = [loc for loc, v, e in status_stores(f, 'Dropped')]
     rets = f.returns()
